@@ -279,7 +279,9 @@ def book_effects_rule(ctx: Ctx, rid: str, which: tuple):
                    and a.value.func.attr == "append" and "slotTaskUsage" in norm(a.value.func.value)),
         "own_limit": ("the resource's own limit counters", lambda a: isinstance(a, ast.Expr) and isinstance(a.value, ast.Call) and norm(a.value.func) == "limits.inc"),
         # (loop heads carry their test expression in the flow graph)
-        "parent_limit": ("the ancestors' limit counters", lambda a: isinstance(a, ast.Name) and a.id == "parent" and isinstance(getattr(a, "_parent", None), ast.While)),
+        "parent_limit": ("the ancestors' limit counters", lambda a: isinstance(a, ast.Name) and isinstance(getattr(a, "_parent", None), ast.While)
+                         and any(isinstance(x, ast.Assign) and norm(x.targets[0]) == a.id and norm(x.value) == f"{a.id}.parent" for x in ast.walk(a._parent))
+                         and any(isinstance(x, ast.Call) and isinstance(x.func, ast.Attribute) and x.func.attr == "inc" for x in ast.walk(a._parent))),
         "task_limit": ("the task's limit counters", lambda a: isinstance(a, ast.Expr) and isinstance(a.value, ast.Call) and norm(a.value.func).endswith(".incLimits")),
     }
     GUARD_OK = {"own_limit": ("limits",), "task_limit": ("task_scenario",), "record": (), "total": (), "parent_limit": ()}
